@@ -26,7 +26,7 @@ LEVEL_NOTE = ("Order is decided in the bounded, restated form 'observed slope ov
               "and end positions stay inside the clip box; the metric is the start cell's, as the implementation documents. RK2 = midpoint rule.")
 RULE = ("cases: onestep (field x scheme x metric, 200 particles, 6 steps), order (field x scheme ladder), helper (analytical.get_velocityN ladder), e2e (ROMS files, linear field, scheme, "
         "dx != dy). Non-trivial: the field has non-zero second derivatives or time dependence so that the three schemes differ; distinct by (kind, field, scheme, metric).")
-MANDATORY = ["onestep_EF", "onestep_RK2", "onestep_RK4", "time_dependent_field", "anisotropic_metric", "piecewise_metric", "order_EF", "order_RK2", "order_RK4",
+MANDATORY = ["grid_corner_off_diagonal", "e2e_subgrid_off_diagonal", "onestep_EF", "onestep_RK2", "onestep_RK4", "time_dependent_field", "anisotropic_metric", "piecewise_metric", "order_EF", "order_RK2", "order_RK4",
              "helper_order_1", "helper_order_2", "helper_order_4", "e2e_runs", "velocity_requests_checked"]
 ASSUMPTIONS = ["per-step displacement below about one cell (Courant <= 0.9)", "diffusion off"]
 TIMEOUT = {"quick": 900, "thorough": 3000}
@@ -89,6 +89,8 @@ def _onestep(case, V, sit, cnt, keys):
     rng = C.rng_for(case["seed"], 1, case["idx"], 0)
     scheme = case["scheme"]
     nx, ny = 50.0, 40.0
+    # lower-left corner of the (sub)grid: on and off the diagonal, as for a ROMS subgrid with i0 != j0
+    x0, y0 = [(0.0, 0.0), (30.0, 2.0), (3.0, 25.0), (12.0, 12.0)][case["idx"] % 4]
     dx = float(rng.choice([200.0, 1000.0, 4000.0]))
     dy = dx if case["metric"] == "iso" else dx * float(rng.uniform(0.5, 1.8))
     dt = int(rng.choice([300, 600, 900]))
@@ -96,11 +98,15 @@ def _onestep(case, V, sit, cnt, keys):
     speed = courant * min(dx, dy) / dt
     timedep = bool(rng.random() < 0.5)
     flow = rand_flow(rng, nx, ny, speed, timedep)
-    gridkw = dict(xmin=0.0, xmax=nx, ymin=0.0, ymax=ny, dx=dx, dy=dy, metric="piecewise" if case["metric"] == "piecewise" else "uniform",
+    for kx, ky in (("xc", "yc"),):
+        if kx in flow:
+            flow[kx] += x0
+            flow[ky] += y0
+    gridkw = dict(xmin=x0, xmax=x0 + nx, ymin=y0, ymax=y0 + ny, dx=dx, dy=dy, metric="piecewise" if case["metric"] == "piecewise" else "uniform",
                   metric_seed=case["idx"])
     npart = 200
-    X0 = rng.uniform(8.0, nx - 8.0, size=npart)
-    Y0 = rng.uniform(8.0, ny - 8.0, size=npart)
+    X0 = x0 + rng.uniform(8.0, nx - 8.0, size=npart)
+    Y0 = y0 + rng.uniform(8.0, ny - 8.0, size=npart)
     timer, state, grid, tracker = make_tracker(scheme, flow, dt, 8, gridkw, X0, Y0)
     vel = ref.flow_vel(flow)
     desc = dict(scheme=scheme, flow=flow, dt=dt, dx=dx, dy=dy, metric=case["metric"])
@@ -117,7 +123,7 @@ def _onestep(case, V, sit, cnt, keys):
         # particles for which the scheme is unambiguous
         ok = np.ones(npart, bool)
         for sx, sy, _f in stages + [(X1, Y1, 1.0)]:
-            ok &= (sx > 0.02 + 0.01) & (sx < nx - 0.03) & (sy > 0.03) & (sy < ny - 0.03)
+            ok &= (sx > x0 + 0.03) & (sx < x0 + nx - 0.03) & (sy > y0 + 0.03) & (sy < y0 + ny - 0.03)
             if case["metric"] == "piecewise":
                 ok &= (np.round(sx) == np.round(Xb)) & (np.round(sy) == np.round(Yb))
         ok &= grid.ingrid(X1, Y1)
@@ -144,6 +150,8 @@ def _onestep(case, V, sit, cnt, keys):
             ok2 = state.alive
             state["alive"] = np.ones(len(ok2), bool)  # keep arrays aligned for the next comparison
     _bump(sit, f"onestep_{scheme}")
+    if x0 != y0:
+        _bump(sit, "grid_corner_off_diagonal")
     if timedep:
         _bump(sit, "time_dependent_field")
     if case["metric"] == "aniso":
@@ -282,10 +290,13 @@ def _e2e(case, wd, V, sit, cnt, keys):
     X0 = rng.uniform(8.0, imax - 9.0, size=npart)
     Y0 = rng.uniform(8.0, jmax - 9.0, size=npart)
     rows = [[start, float(X0[k]), float(Y0[k]), 5.0] for k in range(npart)]
-    run = dict(start=start, stop=str(tadd(start, nsteps * dt)), dt=dt, advection=scheme,
+    sub = [None, [6, imax - 1, 2, jmax - 1], [2, imax - 2, 5, jmax - 2]][case["idx"] % 3]
+    run = dict(start=start, stop=str(tadd(start, nsteps * dt)), dt=dt, advection=scheme, subgrid=sub,
                release=dict(columns=["release_time", "X", "Y", "Z"], rows=rows, header=True), output=dict(period=dt))
     res, conf, world = run_scenario(dict(world=w, run=run), wd)
-    desc = dict(scheme=scheme, field=lin, dt=dt, dx=dx, dy=dy, frames_steps=[o // dt for o in offs], nsteps=nsteps)
+    if sub:
+        _bump(sit, "e2e_subgrid_off_diagonal")
+    desc = dict(scheme=scheme, subgrid=sub, field=lin, dt=dt, dx=dx, dy=dy, frames_steps=[o // dt for o in offs], nsteps=nsteps)
     _bump(sit, "e2e_runs")
     if not res.ok:
         V.append(C.viol(f"end-to-end run did not complete: {res.exc}", tb=res.tb[-1200:], **desc))
